@@ -747,8 +747,9 @@ def _show_fd(v):
         return '[' + ', '.join(_show_fd(x) for x in v) + ']'
     if v is None:
         return 'undefined'
-    return ' + '.join('%s*%s' % (c, 'FD(%s)' % ', '.join(
-        '%s' % (a,) for a in t[1:])) for t, c in sorted(
+    return ' + '.join('%s*%s' % (c, ('FD(%s)' % ', '.join(
+        '%s' % (a,) for a in t[1:])) if t[0] == 'FD' else
+        '<previous contents of the buffer>') for t, c in sorted(
             v.items(), key=lambda kv: str(kv[0]))) or '0'
 
 
@@ -759,7 +760,14 @@ def _run_call(fn, cname, mode, ND, init):
     class Buf(object):
         """mutable array-valued buffer: .val dict term->coeff or None; an
         out of place result of Gradient is a list of Bufs."""
+        _n = [0]
+
         def __init__(self, val=UNDEF, garbage=False):
+            if val is None:
+                # uninitialised memory / previous contents: a symbol that
+                # must not survive into the result
+                Buf._n[0] += 1
+                val = {('STALE', Buf._n[0]): Fr(1)}
             self.val = val
             self.garbage = garbage
 
@@ -941,9 +949,6 @@ def _run_call(fn, cname, mode, ND, init):
     def val_of(b):
         if not isinstance(b, Buf):
             raise Undecided('not a buffer')
-        if b.val is None:
-            raise Undecided('read of an uninitialised buffer (stale '
-                            'contents of out would reach the result)')
         return b.val
 
     def ex(stmts):
@@ -1020,12 +1025,8 @@ def _run_call(fn, cname, mode, ND, init):
     if isinstance(out, PBuf):
         res = []
         for p_ in out.parts:
-            if p_.val is None:
-                raise Undecided('component never written')
             res.append(p_.val)
         return res
     if isinstance(out, Buf):
-        if out.val is None:
-            raise Undecided('result never written')
         return out.val
     raise Undecided('no result')
